@@ -44,6 +44,8 @@ pub const SESSIONS: &[(&str, &str)] = &[
     ("cell_params", "cell := mut 10\nother := mut 1\nbump := (c: mut int, by: int) -> int { c += by; return *c }\nbump(cell, 5)\nsame := (c: mut int) -> mut int { return c }\nsame(cell) == cell\nswap := (p: mut int, q: mut int) { t := *p; p = *q; q = t }\nswap(cell, other)\n(*cell, *other)\nlog := mut [int] []\nnote := (l: mut [int], v: int) -> int { l += [v]; return std.len(*l) }\nnote(log, 3)\n*log"),
     ("known_constants_effects", "c := mut 0\nbump := () -> bool { c += 1; return true }\nnope := () -> bool { c += 10; return false }\nflag := *c > 5\nt := *c < 100\nr := bump() && flag\n*c\nr2 := bump() || t\n(*c, r, r2)\nr3 := nope() && flag\nr4 := flag && nope()\nr5 := t || nope()\n(*c, r3, r4, r5)\nk := *c\nincr := () -> int { c += 1; return *c }\nv := incr() + k\nw := k * incr()\nz := [incr(), k, incr()][1]\n(*c, v, w, z)\nq := if flag { incr() } else { k }\ny := match k { i: int => incr() + i, }\n(*c, q, y)\nzero := k - k\nm := incr() * zero\nd := (incr(), zero).1\n(*c, m, d)"),
     ("known_constants_control", "lim := 3\ni := mut 0\nwhile *i < lim { i += 1 }\n*i\non := *i == lim\nacc := mut [int] []\nfor e in [1, 2, 3, 4]~ { if on { acc += [e] } }\n*acc\noff := !on\nfor e in [1, 2]~ { if off { acc += [e * 100] } else { acc += [e * 7] } }\n*acc\nn := std.len(*acc)\nfill := [0; n]\nstd.len(fill)\nidx := n - 1\n(*acc)[idx]\n(*acc)[0:idx]"),
+    ("single_statement_blocks", "x := 1\n{ x := 2 }\nx\nok := true\nif ok { x := 3 }\nx\nif ok { y := 4 } else { y := 5 }\nz := { x := 6 }\n(x, z)\nfor e in [7]~ { x := e }\nx\nw := mut 2\nwhile *w > 0 { w -= 1 }\nk := (v: int) -> int { { x := v } return x }\nk(9)\n(x, *w)"),
+    ("any_params", "tagged := (tag: any, n: int) -> int { return n + 1 }\ntagged(1, 2)\ntri := (a: int, b: any, c: string) -> string { return c }\ntri(1, 2.5, \"x\")\nanyfirst := (a: any, b: [int], c: (int, string)) -> int { return std.len(b) + c.0 }\nanyfirst((), [1], (1, \"s\"))\nlast := (n: int, rest: any) -> int { return n }\nlast(1, \"x\")\nfour := (a: string, b: any, c: any, d: bool) -> bool { return d }\nfour(\"s\", 1, 2, true)"),
     ("own_name_param", "f := (f: int, g: int) -> int { return f + g }\nf(1, 2)\ng := (x: int) -> int { g := x + 1; return g }\ng(1)\ng(2)"),
 ];
 
@@ -575,6 +577,23 @@ pub fn run_scenario(sc: &Scenario) -> RunReport {
                         _ => (Variable::Int(99), "99".to_string()),
                     };
                     vectors.push(bad);
+                    // ill-typed in each later position too (a value no declared parameter type of
+                    // that position admits); the first argument dropped (arity, shifted types)
+                    for pos in 1..good.len() {
+                        let wrong_val = match &good[pos].0 {
+                            Variable::Int(_) | Variable::Float(_) | Variable::Bool(_) => (Variable::from("oops"), "\"oops\"".to_string()),
+                            _ => (Variable::Int(99), "99".to_string()),
+                        };
+                        if wrong_val.0.as_type().matches(&ft.params[pos]) {
+                            continue;
+                        }
+                        let mut wrong = good.clone();
+                        wrong[pos] = wrong_val;
+                        vectors.push(wrong);
+                    }
+                    if good.len() >= 2 {
+                        vectors.push(good[1..].to_vec());
+                    }
                     // a function where a non-function is expected and vice versa
                     let mut swapped = good.clone();
                     swapped[0] = match &swapped[0].0 {
